@@ -160,6 +160,7 @@ ADDENDA7B = {
  "C12": " Added (axiom-free, Deep_compose.v): the k-th level of a prediction above the finest is the composition of the first k+1 layers' maps applied to the finest B-side prediction (what map_deep computes); one level per layer.",
  "C14": " Added (axiom-free): a pruning round that leaves a category leaves no sample at -1, samples orphaned by an earlier round included (Topo_noise.v); a fit of a TopoART with a history is the fit of a fresh one (Topo_refit.v).",
  "C15": " Added (axiom-free, CVI_gate_edge.v): one cluster per sample and a single cluster have no validity index, for every n, and the gate then permits the assignment without evaluating one.",
+ "C19": " Added (axiom-free, Params_refit.v): a module / DualVigilanceART / TopoART / SimpleARTMAP WITH a training history that is given a new vigilance and then fitted equals a freshly constructed estimator with that vigilance, fitted (corollaries of the fit-forgets theorems).",
  "C16": " Added (Falcon_edge.v): without bootstrapping (lambda = 0) the target is clip(Q + alpha (r - Q)), which differs from the 'untrained' short-cut clip(alpha r) whenever the estimate is positive and alpha < 1; with alpha = 0 the target is the clipped estimate.",
 }
 for _k, _v in list(ADDENDA.items()) + list(ADDENDA7.items()) + list(ADDENDA7B.items()):
